@@ -23,6 +23,8 @@ P == Op("Pass", 0, 0)
 Cl == Op("Cleanup", 0, 0)
 Ca(r) == Op("Cancel", r, 0)
 Re(r) == Op("Resume", r, 0)
+Lk == Op("Lock", 1, 0)
+Ul == Op("Unlock", 1, 0)
 AlphaChan == {Y, Op("Send", 1, 0), Op("Recv", 1, 0)}
 AlphaMutex == {Y, Op("Lock", 1, 0), Op("Unlock", 1, 0)}
 AlphaSem == {Y, Op("Acq", 1, 0), Op("Rel", 1, 0)}
@@ -41,6 +43,17 @@ MainFull == {P, Op("Idle", 0, 0), Re(1), Re(2), Ca(1), Ca(2), Cl}
 MainsLate == {<<>>, <<P, P, Ca(2)>>, <<P, P, Re(2)>>, <<P, Cl>>}
 MainsLife == {<<>>, <<Cl>>, <<P, Cl>>, <<P, Ca(1)>>, <<P, Re(1)>>}
 
+\* hand-written: the holder unlocks (waking routine 2) and cancels routine 2 before it runs; routine 3 still waits
+ProgRaces == LET m3 == WithTail(<<Op("Create", 1, 1), Op("Create", 2, 1), Op("Create", 3, 1)>>) IN
+  << [scripts |-> << <<Lk, Y, Ul, Ca(2)>>, <<Lk>>, <<Lk>> >>, main |-> m3],
+     [scripts |-> << <<Lk, Y, Ul, Ca(2)>>, <<Lk, Ul>>, <<Lk, Ul>> >>, main |-> m3],
+     [scripts |-> << <<Lk, Y, Ul, Ca(2), Lk>>, <<Lk>>, <<Y, Lk>> >>, main |-> m3],
+     \* the holder re-locks before the woken waiter runs (the waiter must be woken again by the second unlock)
+     [scripts |-> << <<Lk, Y, Ul, Lk, Y, Ul>>, <<Lk>>, <<>> >>, main |-> m3],
+     [scripts |-> << <<Lk, Y, Ul, Lk, Y, Ul>>, <<Lk, Ul>>, <<Lk, Ul>> >>, main |-> m3],
+     \* a routine that runs between the unlock and the woken waiter takes the mutex
+     [scripts |-> << <<Lk, Y, Ul>>, <<Lk, Ul>>, <<Y, Lk, Y, Ul>> >>, main |-> m3] >>
+
 (* ---- configurations ---------------------------------------------------------------------------------------------- *)
 ProgQuick(u) ==
      Fam(AlphaChan,  <<1, 2, 2>>, 3, NoMain)                  \* all scripts over yield / send / receive
@@ -51,12 +64,22 @@ ProgQuick(u) ==
   \o Fam(AlphaSem,   <<1, 1, 1>>, 3, MainsUpTo(MainFirst, 2))
   \o Fam(AlphaMutex, <<3, 1, 1>>, 3, MainsLate)
   \o Fam(AlphaLife,  <<2, 1, 0>>, 1, MainsLife)
+  \* a waiter that is woken and cancelled before it runs (the cancel comes from the routine that made the resource available)
+  \o Fam(AlphaChan \cup {Ca(1)}, <<1, 1, 2>>, 3, NoMain)
+  \o Fam(AlphaSem \cup {Ca(1)},  <<1, 1, 2>>, 3, NoMain)
+  \o ProgRaces
+  \* join: the target finishes by itself / is cancelled / is cleaned up while somebody joins it
+  \o Fam({Y, W, Op("Join", 2, 0)}, <<1, 1, 0>>, 2, {<<>>, <<P, Ca(2)>>, <<P, Ca(1)>>, <<P, Re(2)>>, <<P, Cl>>})
+
+\* second quick configuration: semaphores that start at 1, conditions with "any" logic
+ProgQuick2(u) == Fam(AlphaCond, <<2, 2, 0>>, 2, NoMain) \o Fam(AlphaSem, <<1, 1, 2>>, 3, NoMain)
 
 ProgT1(u) == Fam(AlphaChan, <<3, 3, 2>>, 3, NoMain)
 ProgT2(u) == Fam(AlphaMutex, <<3, 3, 2>>, 3, NoMain) \o Fam(AlphaMutex, <<6, 2, 0>>, 2, NoMain)
 ProgT3(u) == Fam(AlphaSem, <<3, 3, 2>>, 3, NoMain)
 ProgT4(u) == Fam(AlphaChan, <<2, 2, 2>>, 3, MainsUpTo(MainFirst, 2)) \o Fam(AlphaSem, <<2, 2, 2>>, 3, MainsUpTo(MainFirst, 2))
-ProgT5(u) == Fam(AlphaMutex, <<3, 2, 1>>, 3, MainsUpTo(MainSecond, 2) \cup MainsLate)
+           \o Fam(AlphaChan \cup {Ca(1), Ca(2)}, <<2, 2, 2>>, 3, NoMain) \o Fam(AlphaSem \cup {Ca(1), Ca(2)}, <<2, 2, 2>>, 3, NoMain)
+ProgT5(u) == Fam(AlphaMutex, <<3, 2, 1>>, 3, MainsUpTo(MainSecond, 2) \cup MainsLate) \o Fam(AlphaMutex \cup {Ca(2)}, <<4, 1, 1>>, 3, NoMain)
 ProgT6(u) == Fam(AlphaBcast, <<2, 2, 2>>, 3, MainsUpTo(MainFirst, 2)) \o Fam(AlphaCond, <<3, 2, 0>>, 2, MainsUpTo(MainFirst, 1))
 ProgT7(u) == Fam(AlphaJoin, <<2, 2, 1>>, 2, MainsUpTo(MainFirst, 1)) \o Fam(AlphaLife, <<2, 2, 0>>, 1, MainsUpTo(MainFirst, 2))
 ProgT8(u) == Fam(AlphaMixed, <<2, 2, 0>>, 2, MainsUpTo(MainFirst, 1))
@@ -66,8 +89,6 @@ ProgT9(u) == Fam(AlphaSem, <<2, 2, 2>>, 3, MainsUpTo(MainFirst, 1)) \o Fam(Alpha
 \* as-found wake-up discipline: "two waiters + two back-to-back sends / releases", "a holder that re-locks before the
 \* woken waiter runs" (the waiter is woken by the first unlock, finds the mutex held again, waits without being
 \* registered and is not woken by the second unlock)
-Lk == Op("Lock", 1, 0)
-Ul == Op("Unlock", 1, 0)
 ProgRelock(u) == Fam({Lk}, <<0, 1, 0>>, 0, NoMain) \o
               << [scripts |-> << <<Lk, Y, Ul, Lk, Y, Ul>>, <<Lk>>, <<>> >>, main |-> WithTail(<<Op("Create", 1, 1), Op("Create", 2, 1)>>)] >>
 ProgAsFoundChan(u) == Fam(AlphaChan, <<1, 1, 2>>, 3, NoMain)
@@ -79,7 +100,7 @@ ProgAsFoundCleanup(u) == Fam(AlphaSpin, <<2, 1, 0>>, 1, NoMain)
 \* TLC evaluates every constant-level definition without parameters at start-up; the program sequences therefore take a
 \* dummy parameter and the configuration selects ONE of them by name (Programs <- ProgSel)
 CONSTANT Which
-ProgSel == CASE Which = "ProgQuick" -> ProgQuick(0)
+ProgSel == CASE Which = "ProgQuick" -> ProgQuick(0) [] Which = "ProgQuick2" -> ProgQuick2(0)
              [] Which = "ProgT1" -> ProgT1(0) [] Which = "ProgT2" -> ProgT2(0) [] Which = "ProgT3" -> ProgT3(0)
              [] Which = "ProgT4" -> ProgT4(0) [] Which = "ProgT5" -> ProgT5(0) [] Which = "ProgT6" -> ProgT6(0)
              [] Which = "ProgT7" -> ProgT7(0) [] Which = "ProgT8" -> ProgT8(0) [] Which = "ProgT9" -> ProgT9(0)
